@@ -33,4 +33,7 @@ def readMessageDeliversEveryPacket : Bool := true
 /-- Transport._parse_kex_init scans the whole kex name list for the pseudo-algorithm names -/
 def markerScanCoversWholeList : Bool := true
 
+/-- Transport.run: no packet is skipped between read_message() and the strict-kex / expected-packet tests -/
+def runJudgesEveryPacket : Bool := true
+
 end PV.Generated.C12
